@@ -72,8 +72,9 @@ CLAIM = dict(
          "line/template.",
     note="Partial: traceback rewriting (debug.py rewrite_traceback_stack/fake_traceback, frame filtering) and tb_lineno are CPython "
          "machinery, covered by correspondence only; the parser's and compiler's choice of node per statement is observed, not "
-         "modelled. Known findings: {% with v = expr %} and {% autoescape expr %} do not announce their node, so an error in them is "
-         "reported on the line of the previously recorded statement. Trusted: Lean kernel; hand models tied by correspondence.",
+         "modelled. Four defects found by this check were repaired in /repo (d69e3bf with, d82a9b0 autoescape, d225a97 comparison "
+         "line, ca2f1be name/filename of unterminated comment/raw errors); the shapes stay in the generators. Trusted: Lean kernel; "
+         "hand models tied by correspondence.",
     design_ref="§5 C35",
 )
 
